@@ -1,1 +1,720 @@
-// harness module for C01 (not written yet)
+// Verification harness for C01 (every neighbour's view converges to export(Loc-RIB); no withdrawal
+// is lost), compiled into rustybgpd's unit-test binary only with `--cfg osrg_rustybgp_verif` and
+// `--cfg verif_c01` (or verif_all).  Grand-child of `crate::event`.
+//
+// Real path driven per case:  `TableManager` (1-3 shards) → `PeerSession::on_established`
+// (`register_peer` dump) → per-shard `NlriChange` fan-out → `handle_prefix_update` /
+// `do_route_refresh` → `PendingTx::drain_messages` → `PeerCodec::encode_to` → bytes.
+// The bytes are read by an independent minimal UPDATE reader (RFC 4271 / 4760 / 7911, IPv4 and
+// IPv6 unicast, add-path) into a mirror Adj-RIB-In.  At the end a second, brand-new session with
+// the same parameters is established on the same RIB; its dump is read the same way.
+//
+// Transcribed glue (not the real `run_select` / `flush_tx`): the dispatch of a `ToPeerEvent`
+// (`NlriChange` ⇒ `handle_prefix_update`, `SoftResetOut` ⇒ `do_route_refresh` per family) and
+// the loop `for (family, p) in pending { for msg in p.drain_messages(family) { codec.encode_to } }`.
+// The tokio mpsc channel is drained into a harness-side FIFO after every RIB operation; the
+// changes one bulk operation (`down`) emits for different prefixes are put in prefix order (the
+// real order is the hash-map iteration order of the table).
+//
+// Case syntax: lean/Rbgp/Export/Codec01.lean.
+#![allow(dead_code)]
+
+use super::super::*;
+
+#[path = "/verif/harness/daemon/export_common.rs"]
+mod xc;
+use xc::*;
+
+use std::collections::{BTreeMap, VecDeque};
+
+type Key = (u128, u8, u32); // address, prefix length, path id
+type Mirror = BTreeMap<Key, (Term, Term)>; // next hop, attributes (canonical terms)
+
+const KNOWN: [u8; 20] = [
+    1, 2, 3, 4, 5, 6, 7, 8, 9, 10, 14, 15, 16, 17, 18, 23, 26, 29, 32, 40,
+];
+fn canon_flags(code: u8) -> Option<u8> {
+    match code {
+        1 | 2 | 3 | 5 | 6 => Some(0x40),
+        4 | 9 | 10 | 14 | 15 | 26 | 29 => Some(0x80),
+        7 | 8 | 16 | 17 | 18 | 23 | 32 | 40 => Some(0xc0),
+        _ => None,
+    }
+}
+
+fn be32(b: &[u8]) -> u32 {
+    u32::from_be_bytes([b[0], b[1], b[2], b[3]])
+}
+
+/// canonical term of one raw attribute (same vocabulary as `xc::attr_t`, computed from wire bytes)
+fn raw_attr_t(flags: u8, code: u8, v: &[u8]) -> Term {
+    let Some(cf) = canon_flags(code) else {
+        return Term::tag(
+            "opq",
+            vec![Term::nat(code), Term::nat(flags), Term::bytes(v)],
+        );
+    };
+    if flags & !0x10 != cf {
+        return Term::tag(
+            "flagged",
+            vec![Term::nat(code), Term::nat(flags), Term::bytes(v)],
+        );
+    }
+    match code {
+        1 if v.len() == 1 => Term::tag("val", vec![Term::nat(code), Term::nat(v[0])]),
+        4 | 5 | 9 if v.len() == 4 => Term::tag("val", vec![Term::nat(code), Term::nat(be32(v))]),
+        2 => {
+            let mut segs = vec![Term::atom("aspath")];
+            let mut i = 0usize;
+            while i < v.len() {
+                if i + 2 > v.len() || i + 2 + 4 * (v[i + 1] as usize) > v.len() {
+                    return Term::tag("badpath", vec![Term::bytes(v)]);
+                }
+                let n = v[i + 1] as usize;
+                let mut seg = vec![Term::nat(v[i])];
+                for k in 0..n {
+                    seg.push(Term::nat(be32(&v[i + 2 + 4 * k..])));
+                }
+                segs.push(Term::list(seg));
+                i += 2 + 4 * n;
+            }
+            Term::list(segs)
+        }
+        8 | 10 if v.len() % 4 == 0 => {
+            let mut w = vec![Term::atom("words"), Term::nat(code)];
+            for c in v.chunks(4) {
+                w.push(Term::nat(be32(c)));
+            }
+            Term::list(w)
+        }
+        _ => Term::tag("bin", vec![Term::nat(code), Term::bytes(v)]),
+    }
+}
+
+fn read_prefixes(
+    mut b: &[u8],
+    addpath: bool,
+    v6: bool,
+    out: &mut Vec<Key>,
+) -> Result<(), &'static str> {
+    while !b.is_empty() {
+        let mut pid = 0u32;
+        if addpath {
+            if b.len() < 4 {
+                return Err("short-path-id");
+            }
+            pid = be32(b);
+            b = &b[4..];
+        }
+        if b.is_empty() {
+            return Err("short-prefix");
+        }
+        let bits = b[0];
+        let n = (bits as usize + 7) / 8;
+        let max = if v6 { 16 } else { 4 };
+        if n > max || b.len() < 1 + n {
+            return Err("bad-prefix");
+        }
+        let mut a = [0u8; 16];
+        a[..n].copy_from_slice(&b[1..1 + n]);
+        let addr = if v6 {
+            u128::from_be_bytes(a)
+        } else {
+            be32(&a[..4]) as u128
+        };
+        out.push((addr, bits, pid));
+        b = &b[1 + n..];
+    }
+    Ok(())
+}
+
+/// Apply every BGP message in `buf` to the mirror; returns the number of frames.
+fn apply_bytes(buf: &[u8], addpath: bool, m: &mut Mirror) -> Result<usize, &'static str> {
+    let mut pos = 0usize;
+    let mut frames = 0usize;
+    while pos < buf.len() {
+        if buf.len() - pos < 19 {
+            return Err("short-header");
+        }
+        if buf[pos..pos + 16].iter().any(|b| *b != 0xff) {
+            return Err("bad-marker");
+        }
+        let l = u16::from_be_bytes([buf[pos + 16], buf[pos + 17]]) as usize;
+        if l < 19 || l > 4096 || pos + l > buf.len() {
+            return Err("bad-length");
+        }
+        let ty = buf[pos + 18];
+        let body = &buf[pos + 19..pos + l];
+        pos += l;
+        frames += 1;
+        if ty != 2 {
+            continue;
+        }
+        if body.len() < 4 {
+            return Err("short-update");
+        }
+        let wl = u16::from_be_bytes([body[0], body[1]]) as usize;
+        if body.len() < 2 + wl + 2 {
+            return Err("bad-withdrawn-length");
+        }
+        let al = u16::from_be_bytes([body[2 + wl], body[3 + wl]]) as usize;
+        if body.len() < 4 + wl + al {
+            return Err("bad-attr-length");
+        }
+        let mut gone: Vec<Key> = Vec::new();
+        read_prefixes(&body[2..2 + wl], addpath, false, &mut gone)?;
+        let mut reach: Vec<Key> = Vec::new();
+        read_prefixes(&body[4 + wl + al..], addpath, false, &mut reach)?;
+        let mut nh = Term::atom("none");
+        let mut attrs: Vec<(u8, Term)> = Vec::new();
+        let mut a = &body[4 + wl..4 + wl + al];
+        while !a.is_empty() {
+            if a.len() < 3 {
+                return Err("short-attr");
+            }
+            let (flags, code) = (a[0], a[1]);
+            let (len, hdr) = if flags & 0x10 != 0 {
+                if a.len() < 4 {
+                    return Err("short-attr");
+                }
+                (u16::from_be_bytes([a[2], a[3]]) as usize, 4)
+            } else {
+                (a[2] as usize, 3)
+            };
+            if a.len() < hdr + len {
+                return Err("attr-overrun");
+            }
+            let v = &a[hdr..hdr + len];
+            a = &a[hdr + len..];
+            match code {
+                3 => {
+                    if v.len() != 4 {
+                        return Err("bad-nexthop");
+                    }
+                    nh = Term::tag("v4", vec![Term::nat(be32(v))]);
+                }
+                14 => {
+                    if v.len() < 5 || (v[0], v[1], v[2]) != (0, 2, 1) {
+                        return Err("mp-reach-family");
+                    }
+                    let nl = v[3] as usize;
+                    if v.len() < 5 + nl {
+                        return Err("mp-reach-short");
+                    }
+                    let n = &v[4..4 + nl];
+                    let to128 = |b: &[u8]| {
+                        let mut x = [0u8; 16];
+                        x.copy_from_slice(b);
+                        u128::from_be_bytes(x)
+                    };
+                    nh = match nl {
+                        16 => Term::tag("v6", vec![Term::nat(to128(n))]),
+                        32 => Term::tag(
+                            "v6ll",
+                            vec![Term::nat(to128(&n[..16])), Term::nat(to128(&n[16..]))],
+                        ),
+                        _ => return Err("mp-reach-nexthop"),
+                    };
+                    read_prefixes(&v[5 + nl..], addpath, true, &mut reach)?;
+                }
+                15 => {
+                    if v.len() < 3 || (v[0], v[1], v[2]) != (0, 2, 1) {
+                        return Err("mp-unreach-family");
+                    }
+                    read_prefixes(&v[3..], addpath, true, &mut gone)?;
+                }
+                _ => attrs.push((code, raw_attr_t(flags, code, v))),
+            }
+        }
+        for k in gone {
+            m.remove(&k);
+        }
+        if !reach.is_empty() {
+            attrs.sort_by_key(|x| x.0); // stable
+            let mut at = vec![Term::atom("attrs")];
+            at.extend(attrs.into_iter().map(|x| x.1));
+            let at = Term::list(at);
+            for k in reach {
+                m.insert(k, (nh.clone(), at.clone()));
+            }
+        }
+    }
+    Ok(frames)
+}
+
+fn mirror_t(tag: &str, m: &Mirror) -> Term {
+    let mut v = vec![Term::atom(tag)];
+    for ((a, l, pid), (nh, at)) in m {
+        v.push(Term::list(vec![
+            Term::nat(*a),
+            Term::nat(*l),
+            Term::nat(*pid),
+            nh.clone(),
+            at.clone(),
+        ]));
+    }
+    Term::list(v)
+}
+
+struct Case {
+    shards: usize,
+    ctx_t: Term,
+    remote_addr: IpAddr,
+    cluster: Option<Ipv4Addr>,
+    max: usize,
+    policy0: Option<Arc<table::PolicyAssignment>>,
+    srcs: Vec<Arc<table::Source>>,
+    pfxs: Vec<(Ipv4Addr, u8, usize)>,
+    asets: Vec<Vec<packet::Attribute>>,
+    pols: Vec<Option<Arc<table::PolicyAssignment>>>,
+    pre: Vec<Term>,
+    ops: Vec<Term>,
+}
+
+fn parse_case(t: &Term) -> Option<Case> {
+    let [shards, ctx, sess, pol, srcs, pfxs, asets, pols, pre, ops] = t.tagged("c01")? else {
+        return None;
+    };
+    let [k] = shards.tagged("shards")? else {
+        return None;
+    };
+    let k = nat_small(k)? as usize;
+    if !(1..=4).contains(&k) {
+        return None;
+    }
+    ctx_of(ctx)?;
+    let [raddr, cluster, mx, fam] = sess.tagged("sess")? else {
+        return None;
+    };
+    if fam.as_atom() != Some("ipv4") {
+        return None;
+    }
+    let mx = nat_small(mx)? as usize;
+    if mx == 0 || mx > 8 {
+        return None;
+    }
+    let [pol] = pol.tagged("pol0")? else {
+        return None;
+    };
+    let srcs: Vec<_> = srcs
+        .tagged("srcs")?
+        .iter()
+        .map(source_of)
+        .collect::<Option<_>>()?;
+    let mut pf = Vec::new();
+    for p in pfxs.tagged("pfxs")? {
+        let [a, l, s] = p.as_list()? else {
+            return None;
+        };
+        let l = nat_small(l)?;
+        let s = nat_small(s)? as usize;
+        if l > 32 || s >= k {
+            return None;
+        }
+        pf.push((Ipv4Addr::from(nat32(a)?), l as u8, s));
+    }
+    let asets: Vec<_> = asets
+        .tagged("asets")?
+        .iter()
+        .map(attrs_of)
+        .collect::<Option<_>>()?;
+    let pols: Vec<_> = pols
+        .tagged("pols")?
+        .iter()
+        .map(policy_of)
+        .collect::<Option<_>>()?;
+    let c = Case {
+        shards: k,
+        ctx_t: ctx.clone(),
+        remote_addr: addr_of(raddr)?,
+        cluster: opt32(cluster)?.map(Ipv4Addr::from),
+        max: mx,
+        policy0: policy_of(pol)?,
+        srcs,
+        pfxs: pf,
+        asets,
+        pols,
+        pre: pre.tagged("pre")?.to_vec(),
+        ops: ops.tagged("ops")?.to_vec(),
+    };
+    // validate every op up front (same rules as the Lean codec): a bad op makes the case bad
+    for (i, o) in c.pre.iter().chain(c.ops.iter()).enumerate() {
+        parse_op(&c, o, i < c.pre.len())?;
+    }
+    Some(c)
+}
+
+enum Op {
+    Ann(usize, usize, u32, usize, bgp::Nexthop),
+    Wd(usize, usize, u32),
+    Down(usize),
+    Reset(Option<usize>),
+    Deliver(usize),
+    Flush,
+}
+
+fn parse_op(c: &Case, t: &Term, pre: bool) -> Option<Op> {
+    let idx = |t: &Term, n: usize| -> Option<usize> {
+        let i = nat_small(t)? as usize;
+        if i < n { Some(i) } else { None }
+    };
+    if let Some([s, p, rpid, a, nh]) = t.tagged("ann") {
+        let nh = nh_of(nh)?;
+        if !matches!(nh, bgp::Nexthop::V4(_)) {
+            return None;
+        }
+        return Some(Op::Ann(
+            idx(s, c.srcs.len())?,
+            idx(p, c.pfxs.len())?,
+            nat32(rpid)?,
+            idx(a, c.asets.len())?,
+            nh,
+        ));
+    }
+    if let Some([s, p, rpid]) = t.tagged("wd") {
+        return Some(Op::Wd(
+            idx(s, c.srcs.len())?,
+            idx(p, c.pfxs.len())?,
+            nat32(rpid)?,
+        ));
+    }
+    if let Some([s]) = t.tagged("down") {
+        return Some(Op::Down(idx(s, c.srcs.len())?));
+    }
+    if pre {
+        return None;
+    }
+    if let Some([k]) = t.tagged("reset") {
+        if k.as_atom() == Some("none") {
+            return Some(Op::Reset(None));
+        }
+        return Some(Op::Reset(Some(idx(k, c.pols.len())?)));
+    }
+    if let Some([n]) = t.tagged("deliver") {
+        return Some(Op::Deliver(nat_small(n)? as usize));
+    }
+    if t.as_atom() == Some("flush") {
+        return Some(Op::Flush);
+    }
+    None
+}
+
+fn net_of(c: &Case, p: usize) -> packet::Nlri {
+    packet::Nlri::V4(packet::bgp::Ipv4Net {
+        addr: c.pfxs[p].0,
+        mask: c.pfxs[p].1,
+    })
+}
+
+fn new_session(c: &Case, tables: &TableHandle) -> PeerSession {
+    let mut s = PeerSession::new_for_test(c.remote_addr, make_context(), tables.clone());
+    s.export_ctx = ctx_of(&c.ctx_t).unwrap();
+    s.cluster_id = c.cluster;
+    s.codec.set_family(
+        Family::IPV4,
+        bgp::FamilyState {
+            addpath_rx: false,
+            addpath_tx: c.max > 1,
+        },
+    );
+    s.effective_max.insert(Family::IPV4, c.max);
+    s.state.remote_asn.store(64999, Ordering::Relaxed);
+    s.state
+        .remote_cap
+        .store(Some(Arc::new(Vec::<packet::Capability>::new())));
+    s
+}
+
+/// flush_tx step 2 without the socket: drain every family's PendingTx and encode.
+fn flush(s: &mut PeerSession) -> Vec<u8> {
+    let mut txbuf = bytes::BytesMut::with_capacity(1 << 16);
+    for (family, p) in s.pending.iter_mut() {
+        for msg in p.drain_messages(*family) {
+            let _ = s.codec.encode_to(&msg, &mut txbuf);
+        }
+    }
+    txbuf.to_vec()
+}
+
+enum Ev {
+    Change(Arc<table::NlriChange>),
+    SoftReset,
+}
+
+fn nlri_key(n: &packet::Nlri) -> (u128, u8) {
+    match n {
+        packet::Nlri::V4(x) => (u32::from(x.addr) as u128, x.mask),
+        packet::Nlri::V6(x) => (u128::from(x.addr), x.mask),
+        _ => (0, 255),
+    }
+}
+
+/// Move what the RIB operation just put on the tokio channel into the harness FIFO.
+fn pump(s: &mut PeerSession, q: &mut VecDeque<Ev>, sort: bool) {
+    let Some(rx) = s.peer_event_rx.as_mut() else {
+        return;
+    };
+    let mut batch: Vec<Ev> = Vec::new();
+    while let Ok(e) = rx.as_mut().try_recv() {
+        match e {
+            ToPeerEvent::NlriChange(u) => batch.push(Ev::Change(u)),
+            ToPeerEvent::SoftResetOut => batch.push(Ev::SoftReset),
+            ToPeerEvent::RouteRefreshFamilies(_) => {}
+        }
+    }
+    if sort {
+        batch.sort_by_key(|e| match e {
+            Ev::Change(u) => nlri_key(&u.net),
+            Ev::SoftReset => (0, 0),
+        });
+    }
+    q.extend(batch);
+}
+
+async fn run(c: &Case) -> String {
+    let tables: TableHandle = Arc::new(TableManager::new(c.shards));
+    // the case claims a shard for every prefix (the model needs it for the id allocators): verify
+    {
+        let probe = TableManager::new(c.shards);
+        let src = Arc::new(table::Source::new(
+            IpAddr::V4(Ipv4Addr::new(192, 0, 2, 1)),
+            IpAddr::V4(Ipv4Addr::new(127, 0, 0, 1)),
+            1,
+            2,
+            Ipv4Addr::new(192, 0, 2, 1),
+            PeerRole::Ebgp,
+        ));
+        for (i, p) in c.pfxs.iter().enumerate() {
+            probe.insert_route(
+                src.clone(),
+                Family::IPV4,
+                packet::PathNlri::new(net_of(c, i)),
+                Some(bgp::Nexthop::V4(Ipv4Addr::new(192, 0, 2, 1))),
+                Arc::new(Vec::new()),
+                None,
+                0,
+            );
+            let mut real = usize::MAX;
+            for (k, sh) in probe.shards.iter().enumerate() {
+                let t = sh.lock().unwrap();
+                if t.rtable
+                    .collect_loc_rib_paths(&Family::IPV4)
+                    .iter()
+                    .any(|ch| ch.net == net_of(c, i))
+                {
+                    real = k;
+                }
+            }
+            if real != p.2 {
+                return format!("(shard-mismatch {} {})", i, real);
+            }
+        }
+    }
+    let rib_op = |op: &Op| match op {
+        Op::Ann(s, p, rpid, a, nh) => {
+            tables.insert_route(
+                c.srcs[*s].clone(),
+                Family::IPV4,
+                packet::PathNlri {
+                    path_id: *rpid,
+                    nlri: net_of(c, *p),
+                },
+                Some(*nh),
+                Arc::new(c.asets[*a].clone()),
+                None,
+                0,
+            );
+        }
+        Op::Wd(s, p, rpid) => {
+            tables.remove_route(
+                c.srcs[*s].clone(),
+                Family::IPV4,
+                packet::PathNlri {
+                    path_id: *rpid,
+                    nlri: net_of(c, *p),
+                },
+                None,
+                0,
+            );
+        }
+        Op::Down(s) => {
+            tables.drop_families(c.srcs[*s].remote_addr, &[Family::IPV4]);
+        }
+        _ => {}
+    };
+    for o in &c.pre {
+        rib_op(&parse_op(c, o, true).unwrap());
+    }
+    let local_sa = SocketAddr::new(IpAddr::V4(Ipv4Addr::new(127, 0, 0, 1)), 179);
+    let remote_sa = SocketAddr::new(c.remote_addr, 40000);
+    let mut a = new_session(c, &tables);
+    a.state.export_policy.store(c.policy0.clone());
+    a.on_established(local_sa, remote_sa).await;
+    let addpath = c.max > 1;
+    let mut mirror = Mirror::new();
+    let mut q: VecDeque<Ev> = VecDeque::new();
+    let mut flushes = vec![Term::atom("flushes")];
+    let mut owner: FnvHashMap<u32, packet::Nlri> = FnvHashMap::default();
+    let mut reuse = 0u64;
+    let mut policy = c.policy0.clone();
+    let mut err: Option<&'static str> = None;
+
+    async fn deliver(
+        a: &mut PeerSession,
+        q: &mut VecDeque<Ev>,
+        n: usize,
+        owner: &mut FnvHashMap<u32, packet::Nlri>,
+        reuse: &mut u64,
+    ) {
+        for _ in 0..n {
+            let Some(e) = q.pop_front() else { break };
+            match e {
+                Ev::Change(u) => {
+                    if let Some(old) = owner.insert(u.dest_id, u.net.clone())
+                        && old != u.net
+                    {
+                        *reuse += 1;
+                    }
+                    a.handle_prefix_update(u);
+                }
+                Ev::SoftReset => {
+                    for family in a.pending.keys().cloned().collect::<Vec<_>>() {
+                        a.do_route_refresh(family).await;
+                    }
+                }
+            }
+        }
+    }
+
+    for o in &c.ops {
+        let op = parse_op(c, o, false).unwrap();
+        match &op {
+            Op::Ann(..) | Op::Wd(..) => {
+                rib_op(&op);
+                pump(&mut a, &mut q, false);
+            }
+            Op::Down(_) => {
+                rib_op(&op);
+                pump(&mut a, &mut q, true);
+            }
+            Op::Reset(k) => {
+                policy = match k {
+                    None => None,
+                    Some(i) => c.pols[*i].clone(),
+                };
+                a.state.export_policy.store(policy.clone());
+                tables.soft_reset_out(c.remote_addr);
+                pump(&mut a, &mut q, false);
+            }
+            Op::Deliver(n) => deliver(&mut a, &mut q, *n, &mut owner, &mut reuse).await,
+            Op::Flush => {
+                let bytes = flush(&mut a);
+                if let Err(e) = apply_bytes(&bytes, addpath, &mut mirror) {
+                    err = Some(e);
+                }
+                flushes.push(mirror_t("m", &mirror));
+            }
+        }
+    }
+    // quiesce: everything delivered, everything flushed
+    let n = q.len();
+    deliver(&mut a, &mut q, n, &mut owner, &mut reuse).await;
+    let bytes = flush(&mut a);
+    if let Err(e) = apply_bytes(&bytes, addpath, &mut mirror) {
+        err = Some(e);
+    }
+    // what a brand-new session to the same neighbour is sent from the current RIB and policy
+    let mut b = new_session(c, &tables);
+    b.state.export_policy.store(policy.clone());
+    b.on_established(local_sa, remote_sa).await;
+    let bytes = flush(&mut b);
+    let mut dump = Mirror::new();
+    if let Err(e) = apply_bytes(&bytes, addpath, &mut dump) {
+        err = Some(e);
+    }
+    if let Some(e) = err {
+        return format!("(wire-error {})", e);
+    }
+    Term::tag(
+        "obs",
+        vec![
+            Term::tag("reuse", vec![Term::nat(reuse)]),
+            Term::list(flushes),
+            mirror_t("final", &mirror),
+            mirror_t("dump", &dump),
+        ],
+    )
+    .to_string()
+}
+
+fn run_case(rt: &tokio::runtime::Runtime, line: &str) -> String {
+    let Some(t) = Term::parse(line) else {
+        return "(bad-case)".into();
+    };
+    if let Some(args) = t.tagged("probe") {
+        // (probe K (ADDR LEN)...) -> shard of every prefix (used once to build the generator's table)
+        let Some((k, pf)) = args.split_first() else {
+            return "(bad-case)".into();
+        };
+        let k = nat_small(k).unwrap_or(1) as usize;
+        let mut out = vec![Term::atom("shards")];
+        for p in pf {
+            let l = p.as_list().unwrap();
+            let net = packet::Nlri::V4(packet::bgp::Ipv4Net {
+                addr: Ipv4Addr::from(nat32(&l[0]).unwrap()),
+                mask: nat_small(&l[1]).unwrap() as u8,
+            });
+            let tm = TableManager::new(k);
+            tm.insert_route(
+                table::Source::local(),
+                Family::IPV4,
+                packet::PathNlri::new(net),
+                None,
+                Arc::new(Vec::new()),
+                None,
+                0,
+            );
+            let mut real = 99u32;
+            for (i, sh) in tm.shards.iter().enumerate() {
+                if !sh
+                    .lock()
+                    .unwrap()
+                    .rtable
+                    .collect_loc_rib_paths(&Family::IPV4)
+                    .is_empty()
+                {
+                    real = i as u32;
+                }
+            }
+            out.push(Term::nat(real));
+        }
+        return Term::list(out).to_string();
+    }
+    let Some(c) = parse_case(&t) else {
+        return "(bad-case)".into();
+    };
+    rt.block_on(run(&c))
+}
+
+#[test]
+fn verif_main() {
+    let (Ok(prop), Ok(inp), Ok(out)) = (
+        std::env::var("VERIF_PROP"),
+        std::env::var("VERIF_IN"),
+        std::env::var("VERIF_OUT"),
+    ) else {
+        return; // not invoked by /verif/check
+    };
+    if prop != "C01" {
+        return;
+    }
+    let rt = tokio::runtime::Builder::new_current_thread()
+        .enable_all()
+        .build()
+        .unwrap();
+    std::panic::set_hook(Box::new(|_| {}));
+    sexp::run_lines(&inp, &out, |l| {
+        std::panic::catch_unwind(std::panic::AssertUnwindSafe(|| run_case(&rt, l)))
+            .unwrap_or_else(|_| "(panic)".into())
+    });
+}
